@@ -172,7 +172,11 @@ def c05(sc, V):
     f = []
     for s in V:
         if s.snap.blocked:
-            f.append({"sig": "event-loop-blocked", "step": s.n, "msg": "daemon spins for ever inside one step (op %r)" % (s.op,)})
+            # F28: the socket-triggered start of an on-demand watcher runs detached, outside the exclusive slot; a stop or
+            # restart overlapping it ends in reap_processes() waiting for workers that were spawned during the stop
+            od = any(c.get("on_demand") for c in sc["watchers"]) and any(x.kind() == "sockev" and x.op[1] for x in V[:s.n])
+            f.append({"sig": "event-loop-blocked@on-demand-start-overlap" if od else "event-loop-blocked", "step": s.n,
+                      "msg": "daemon spins for ever inside one step (op %r)" % (s.op,)})
             break
         if s.slept > 40:
             f.append({"sig": "event-loop-stalled", "step": s.n, "msg": "event loop blocked for %d ms in one step" % s.slept})
@@ -440,7 +444,8 @@ def c03(sc, V):
             wn_real = next((w["name"] for w in s.before.watchers if w["name"].replace(" ", "_") == wn), wn)
             is_kill = any(m[0] == "ev" and m[2] == "kill" and m[3] == pid for m in s.lines[i + 1:i + 3])
             if sg != 9 and via == "" and st == "r" and pid not in stop_sent and is_kill:
-                T = _graceful_at(sc, V, s.n, wn_real)
+                # a `set` request applies all its options before it re-evaluates the process set
+                T = _graceful_at(sc, V, s.n + (1 if s.cmd() == "set" else 0), wn_real)
                 if s.cmd() == "kill":
                     gt = s.props().get("graceful_timeout")
                     if isinstance(gt, (int, float)) and not isinstance(gt, bool):
@@ -495,7 +500,8 @@ def c03(sc, V):
                     not any(x.cmd() == "set" for x in V[:s.n + 1])
                 if is_stop or is_final:
                     got = set(m[1] for m in s.lines if m[0] == "sig" and m[2] == l[2])
-                    lost = [k for k in kids if k not in got]
+                    # a child that died by itself during the step (armed fault) cannot be signalled
+                    lost = [k for k in kids if k not in got and alive(s.snap.kernel.get(k, ("g", None))[0])]
                     if lost:
                         # F20: the children are looked up again through the worker after it got the signal; when
                         # the signal killed it at once they are re-parented and no longer found (own signature)
@@ -513,6 +519,7 @@ def c02(sc, V):
     pids_of = {}          # spawn-name -> [pids]
     nostop = set()
     rm_pending = []
+    sock_seen = False
     for s in V:
         if s.before.blocked:
             break
@@ -566,10 +573,14 @@ def c02(sc, V):
         enabling = s.kind() == "start" or (s.kind() == "sig" and s.op[1] == "reload") or \
             s.cmd() in ("start", "restart", "reload", "add", "reloadconfig") or \
             (s.kind() == "wake" and s.before.slot in STARTISH)
+        if s.kind() == "sockev" and s.op[1]:
+            sock_seen = True
         if not enabling:
             for l in s.lines:
                 if l[0] == "spawn":
                     w = next((w for w in s.before.watchers if w["name"].replace(" ", "_") == l[2]), None)
+                    if w is not None and sock_seen and any(c.get("on_demand") and c["name"] == w["name"] for c in sc["watchers"]):
+                        continue          # "or a socket event arrives for an on-demand watcher"
                     if w is not None and w["status"] == "stopped":
                         f.append({"sig": "spawn-for-stopped-watcher", "step": s.n,
                                   "msg": "op %r spawned %d for stopped watcher %s" % (s.op, l[1], l[2])})
@@ -591,10 +602,11 @@ def c04(sc, V):
                 spawned[l[1]] = l[2]
             if l[0] == "raised":
                 raised = True
-        if s.cmd() == "rm" and s.props().get("nostop") and any(r[3] == "ok" for r in s.of("rep")):
+        if s.cmd() == "rm" and s.props().get("nostop"):
             n = s.props().get("name")
             w = next((w for w in s.before.watchers if isinstance(n, str) and w["name"].lower() == n.lower()), None)
-            if w:
+            # accepted = the watcher has left the directory (a cast message gets no reply)
+            if w and not any(x["name"] == w["name"] for x in s.snap.watchers):
                 orphaned_ok |= set(p[0] for p in w["procs"])
         a = s.snap
         listed = {}
@@ -604,7 +616,9 @@ def c04(sc, V):
                     f.append({"sig": "pid-listed-twice", "step": s.n, "msg": "pid %d under %s and %s" % (p[0], listed[p[0]], w["name"])})
                 listed[p[0]] = w["name"]
             if w["status"] == "stopped" and w["procs"]:
-                f.append({"sig": "stopped-with-processes", "step": s.n, "msg": "%s stopped but lists %r" % (w["name"], w["procs"])})
+                od = any(c.get("on_demand") and c["name"] == w["name"] for c in sc["watchers"])
+                f.append({"sig": "on-demand-stopped-with-processes" if od else "stopped-with-processes", "step": s.n,
+                          "msg": "%s stopped but lists %r" % (w["name"], w["procs"])})
         if a.quiescent():
             for w in a.watchers:
                 if w["status"] in ("starting", "stopping"):
@@ -727,7 +741,13 @@ def c14(sc, V, counters=None):
                 default_ign = l[4] in ("before_stop", "after_stop", "before_signal", "after_signal", "extended_stats")
                 eff = True if o == "true" else False if o == "false" else (bool(spec.get("ignore")) or default_ign)
                 if l[4] in START_HOOKS and not eff:
-                    failed_start[wn] = l[4]
+                    # only a *start*: the watcher was stopped (or is inside its start) when the hook ran; the same hooks
+                    # also run for respawns / reload / incr on a running watcher, where nothing says the watcher stops
+                    wbefore = s.before.w(wn)
+                    started_here = any(m[0] == "ev" and m[1] == l[1] and m[2] == "start" for m in s.lines[:i])
+                    stopped_here = any(m[0] == "ev" and m[1] == l[1] and m[2] == "stop" for m in s.lines[:i])
+                    if wbefore is not None and (wbefore["status"] in ("stopped", "starting") or stopped_here) and not started_here:
+                        failed_start[wn] = l[4]
                 if l[4] == "before_signal":
                     nxt = s.lines[i + 1] if i + 1 < len(s.lines) else None
                     # "that signal": the one to the worker the hook was asked about — a following signal to a
@@ -900,7 +920,8 @@ def c01(sc, V):
             for w in a.watchers:
                 cfg = next((c for c in sc["watchers"] if c["name"] == w["name"]), None)
                 respawn = cfg.get("respawn", True) if cfg else True
-                if w["status"] != "active" or not respawn or (cfg or {}).get("max_age"):
+                # on-demand watchers replace a dead worker only at the next connection (documented): not C01's claim
+                if w["status"] != "active" or not respawn or (cfg or {}).get("max_age") or (cfg or {}).get("on_demand"):
                     if w["status"] == "active":
                         conv = False
                     continue
@@ -949,7 +970,8 @@ def c01(sc, V):
                 continue
             old = set(p[0] for p in wb["procs"])
             stale = [p[0] for p in wa["procs"] if p[0] in old and alive(s.snap.kernel.get(p[0], ("g", 0))[0])]
-            if stale and not any(l[0] in ("raised",) for x in V[q.n:s.n + 1] for l in x.lines) and \
+            # spawn failures (exec errors) are outside C01's quantifier: with them the old workers may have to stay
+            if stale and not any(l[0] in ("raised", "execfail") for x in V[q.n:s.n + 1] for l in x.lines) and \
                     all(x.kind() in ("wake", "adv", "req") for x in V[q.n:s.n + 1]):
                 f.append({"sig": "stale-worker-after-%s" % q.cmd(), "step": s.n,
                           "msg": "%s completed but workers %r were started before it" % (q.cmd(), stale)})
